@@ -156,21 +156,26 @@ def list_targets(coredata: cdata.CoreData, builddata: build.Build, backend: back
     build_dir = builddata.environment.get_build_dir()
     src_dir = builddata.environment.get_source_dir()
 
-    # Fast lookup table for installation files
-    install_lookuptable = {}
+    # Fast lookup table for installation files, keyed by the path of the file
+    # in the build directory: two targets in different directories may produce
+    # files with the same basename.
+    install_lookuptable: T.Dict[str, T.List[str]] = {}
+    install_by_dest: T.Dict[str, T.List[str]] = {}
     installdata = backend.create_install_data()
     for i in installdata.targets:
-        basename = os.path.basename(i.fname)
-        install_lookuptable[basename] = [str(PurePath(installdata.prefix, i.outdir, basename))]
+        dest = str(PurePath(installdata.prefix, i.outdir, os.path.basename(i.fname)))
+        install_lookuptable[os.path.join(build_dir, i.fname)] = install_by_dest[dest] = [dest]
     for s in installdata.symlinks:
         # Symlink's target must already be in the table. They share the same list
         # to support symlinks to symlinks recursively, such as .so -> .so.0 -> .so.1.2.3
         basename = os.path.basename(s.name)
         try:
-            install_lookuptable[basename] = install_lookuptable[os.path.basename(s.target)]
-            install_lookuptable[basename].append(str(PurePath(installdata.prefix, s.install_path, basename)))
+            locations = install_by_dest[str(PurePath(installdata.prefix, s.install_path, os.path.basename(s.target)))]
         except KeyError:
-            pass
+            continue
+        dest = str(PurePath(installdata.prefix, s.install_path, basename))
+        locations.append(dest)
+        install_by_dest[dest] = locations
 
     for (idname, target) in builddata.get_targets().items():
         if not isinstance(target, build.Target):
@@ -200,7 +205,7 @@ def list_targets(coredata: cdata.CoreData, builddata: build.Build, backend: back
 
         if target.should_install():
             t['installed'] = True
-            ifn = [install_lookuptable.get(x, [None]) for x in target.get_outputs()]
+            ifn = [install_lookuptable.get(os.path.join(build_dir, outdir, x), [None]) for x in target.get_outputs()]
             t['install_filename'] = [x for sublist in ifn for x in sublist]  # flatten the list
         else:
             t['installed'] = False
